@@ -211,7 +211,7 @@ func genC18(t *rapid.T) c18Case {
 	c := c18Case{Procs: rapid.SampledFrom([]int{2, 4, 16}).Draw(t, "gomaxprocs")}
 	ni := rapid.IntRange(1, 4).Draw(t, "inputs")
 	for i := 0; i < ni; i++ {
-		nb := rapid.IntRange(1200, 4000).Draw(t, "nbytes")
+		nb := uniformInt(t, 1200, 4000, "nbytes")
 		c.Inputs = append(c.Inputs, gen.DrawSeq(t, nb*8, []string{"uniform", "uniform", "biased", "markov", "periodic", "sparse", "bytewords"}))
 	}
 	nt := rapid.IntRange(2, 24).Draw(t, "goroutines")
